@@ -79,7 +79,7 @@ def fam_kind(cfg):
 def make_sketch(cfg, shared=False, via_factory=False):
     SK = boot.SK
     f = cfg["family"]
-    w, d = cfg["width"], cfg["depth"]
+    w, d = cfg.get("width"), cfg.get("depth")
     if f == "linear":
         if via_factory:
             return SK.countmin.CountMin("linear", w, d, shared_memory=shared)
@@ -231,6 +231,7 @@ class World:
         self.universe = {}  # identity bytes -> True, insertion ordered
         self.cells = {}  # identity -> tuple of column per row (ownership learned by probe)
         self.probe = None
+        self._sharers = {}
         self.counters = Counter()
         self.probes = Counter()
         self.state_hashes = set()
@@ -315,6 +316,10 @@ class World:
         mine = self.owner_cells(ident)
         out = []
         depth = self.cfg["depth"]
+        key = (ident, len(self.universe))
+        hit = self._sharers.get(key)
+        if hit is not None:
+            return hit
         for r in range(depth):
             row = []
             for other in self.universe:
@@ -322,6 +327,7 @@ class World:
                 if mine is False or oc is False or oc[r] == mine[r]:
                     row.append(other)
             out.append(row)
+        self._sharers[key] = out
         return out
 
     # -- parties ------------------------------------------------------------------
@@ -512,6 +518,10 @@ class World:
             otruth, omass, ounknown = src.truth, src.mass, src.unknown
         tgt = self.party(dst, ev.get("via", 0))
         pre_other = state_bytes(other, self.fam)
+        cap = self.cfg.get("capture_merge")
+        if cap:
+            a_pre = copy_state(tgt, self.fam)
+            b_pre = copy_state(other, self.fam)
         api("merge", tgt.merge, other)
         other_unchanged = state_bytes(other, self.fam) == pre_other
         if self.counting:
@@ -525,7 +535,11 @@ class World:
         if dst.shadow is not None:
             # shadow follows with an in-memory clone of the same operand
             api("shadow:merge", dst.shadow.merge, other)
-        return {"node": m.dst, "msg": m.id, "kind": m.kind, "other_unchanged": other_unchanged, "src": m.src}
+        info = {"node": m.dst, "msg": m.id, "kind": m.kind, "other_unchanged": other_unchanged, "src": m.src}
+        if cap:
+            info["a_pre"], info["b_pre"] = a_pre, b_pre
+            info["a_post"] = copy_state(tgt, self.fam)
+        return info
 
     def op_partition(self, ev):
         return {}
@@ -682,12 +696,26 @@ class World:
             return None
         tab = n.primary.cms
         d, w = tab.shape
-        for r, c, val in ev["cells"]:
-            tab[r % d, c % w] = val
+        mx = int(n.primary.uint_maxval)
+        grid = ev.get("grid")
+        targets = [n.primary] + ([n.shadow] if n.shadow is not None else [])
+        for t in targets:
+            tb = t.cms
+            if grid == "row":  # a[i, j] = i
+                tb[:] = (np.arange(d).reshape(d, 1) % (mx + 1)).astype(tb.dtype)
+            elif grid == "col":  # a[i, j] = j
+                tb[:] = (np.arange(w).reshape(1, w) % (mx + 1)).astype(tb.dtype)
+            elif grid == "seq":  # a[i, j] = i * w + j
+                tb[:] = ((np.arange(d * w).reshape(d, w)) % (mx + 1)).astype(tb.dtype)
+            elif grid == "zero":
+                tb[:] = 0
+            for r, c, val in ev.get("cells", []):
+                tb[r % d, c % w] = min(val, mx)
+            if "nadd" in ev:
+                t.n_added_records[0] = ev["nadd"]
+            if "nrec" in ev:
+                t.n_added_records[1] = ev["nrec"]
         n.unknown = True
-        if n.shadow is not None:
-            for r, c, val in ev["cells"]:
-                n.shadow.cms[r % d, c % w] = val
         return {"node": ev["node"]}
 
     def op_skew_merge(self, ev):
@@ -739,6 +767,69 @@ class World:
         same_a = state_bytes(a, self.fam) == pre_a
         same_p = state_bytes(peer, pfam) == pre_p
         return {"node": ev["node"], "outcomes": outcomes, "a_unchanged": same_a, "peer_unchanged": same_p}
+
+    def op_law(self, ev):
+        """C06(a): the key's counters are set to c, one draw u is placed at the read
+        position on a chosen side of the decision boundary, the key is added once."""
+        n = self._node(ev)
+        if n is None or self.fam not in LOG:
+            return None
+        key = unhex(ev["key"])
+        self.note_key(key)
+        cells = self.owner_cells(key)
+        if cells is False:
+            return None
+        sk = n.primary
+        maxv = int(sk.uint_maxval)
+        nr = int(sk.num_reserved)
+        base = float(sk.base)
+        c = max(0, min(int(ev["c"]), maxv))
+        for r, col in enumerate(cells):
+            sk.cms[r, col] = c
+        n.unknown = True
+        p = 1.0 if c < nr else base ** (-float(c - nr))
+        side = ev["side"]
+        if side == "below":
+            u = p * (1.0 - 1e-6)
+        elif side == "above":
+            u = p * (1.0 + 1e-6)
+        elif side == "far_below":
+            u = p * 0.5
+        elif side == "far_above":
+            u = p + (1.0 - p) * 0.5
+        elif side == "zero":
+            u = 0.0
+        else:
+            u = float(np.nextafter(1.0, 0.0))
+        if not (0.0 <= u < 1.0):
+            u = p * (1.0 - 1e-6)
+        ptr = int(ev.get("ptr", 0)) % 2048
+        install_draws(sk, ev.get("ds", 1), ptr)
+        sk.rand_nums[ptr] = u
+        boot.numba_seed(ev.get("ds", 1) + 1)
+        nadd0 = int(sk.n_added())
+        api("add", sk.add, key, 1)
+        c2 = min(int(sk.cms[r, col]) for r, col in enumerate(cells))
+        return {"node": ev["node"], "c": c, "c2": c2, "u": u, "p": p, "ptr": ptr, "ptr2": int(sk.rand_ptr),
+                "nr": nr, "maxval": maxv, "dn": int(sk.n_added()) - nadd0}
+
+    def op_ctor(self, ev):
+        """C18 constructor clause: an accepted log configuration decodes its maximum
+        counter to max_count; otherwise the constructor raises ValueError."""
+        SK = boot.SK
+        cls = SK.countmin.CountMinLog8 if ev["fam"] == "log8" else SK.countmin.CountMinLog16
+        try:
+            if ev.get("factory"):
+                sk = SK.countmin.CountMin(ev["fam"], 2, 1, ev["max_count"], ev["nr"])
+            else:
+                sk = cls(2, 1, ev["max_count"], ev["nr"])
+        except ValueError as e:
+            return {"raised": "ValueError", "msg": str(e)}
+        except Exception as e:
+            raise CodeRaised("ctor", e) from e
+        sk.cms[:] = sk.uint_maxval
+        top = float(api("query", sk.query, b"x"))
+        return {"raised": None, "top": top, "base": float(sk.base), "max_count": ev["max_count"], "nr": ev["nr"]}
 
     def op_noop(self, ev):
         return None
